@@ -236,7 +236,12 @@ func (g *vfGen) scalar(t reflect.Type, owner, field string, minimal bool) reflec
 		case vfRoleXHTML:
 			v.SetString(g.xhtml())
 		default:
-			v.SetString(g.text(!minimal))
+			if t.Name() == "StanzaType" && g.r.Intn(2) == 0 {
+				// the values the protocol defines: decoders may (wrongly) branch on them
+				v.SetString([]string{"error", "get", "set", "result", "chat", "groupchat", "headline", "normal", "subscribe", "unavailable", "probe"}[g.r.Intn(11)])
+			} else {
+				v.SetString(g.text(!minimal))
+			}
 		}
 	case reflect.Int, reflect.Int8, reflect.Int16, reflect.Int32, reflect.Int64:
 		var x int64
